@@ -1,8 +1,8 @@
 #!/bin/sh
 # tools/test_round.sh <round prefix: seed|s2> <tag: m|r2m> <PID...> : confirm and test the sub-agent changes of the given properties
 ROOT=$1; TAG=$2; shift 2
-cd /verif
+cd "$(dirname "$0")/.."
 for p in "$@"; do for n in 1 2 3; do d=/tmp/${ROOT}_$p/mutants; if [ -f $d/m$n.diff ]; then
   echo "=== $p ${TAG}$n: $(python3 -c "import json;print(json.load(open('$d/m$n.json'))['summary'][:160])" 2>/dev/null)"
-  /venv/bin/python tools/try_mutant.py $d/m$n.diff --props $p --baseline --demo $d/m${n}_demo.py --json /verif/.work/seedres/${p}_${TAG}$n.json 2>&1 | grep -v conda
+  /venv/bin/python tools/try_mutant.py $d/m$n.diff --props $p --baseline --demo $d/m${n}_demo.py --json .work/seedres/${p}_${TAG}$n.json 2>&1 | grep -v conda
 fi; done; done
